@@ -230,11 +230,23 @@ def _impl_worker(args):
     case, tmo = args
     signal.signal(signal.SIGALRM, _alarm)
     signal.alarm(tmo)
+    old_limit = None
     try:
         try:
+            rl = case.get("_reclimit") if isinstance(case, dict) else None
+            if rl:
+                # "deep" cases: leave only `rl` frames of head-room, so that a search that recurses once per node / edge
+                # fails on a chain of a few hundred nodes instead of needing ~1000 (iterative code is unaffected)
+                depth, f = 0, sys._getframe()
+                while f is not None:
+                    depth, f = depth + 1, f.f_back
+                old_limit = sys.getrecursionlimit()
+                sys.setrecursionlimit(depth + int(rl))
             out = _MOD.run_impl(case)
         finally:
             signal.alarm(0)
+            if old_limit is not None:
+                sys.setrecursionlimit(old_limit)
         return json.loads(json.dumps(out))
     except _Timeout:
         return {"exc": "TIMEOUT"}
